@@ -97,7 +97,12 @@ def check_hdc(case, ctx):
 
             bx = run.centers[0][idx[:, 0]]
             by = run.centers[1][idx[:, 1]]
-            ex, ey = sort_points_to_form_continuous_line(bx, by, search_for_optimal_start=True)
+            try:
+                with H.time_limit(H.HDC_BUDGET_S):
+                    ex, ey = sort_points_to_form_continuous_line(bx, by, search_for_optimal_start=True)
+            except H.CaseTimeout:
+                ctx.cls("timeout:order_check")
+                return
             if len(ex) == len(got) and not (np.array_equal(got[:, 0], ex) and np.array_equal(got[:, 1], ey)):
                 ctx.violation("order:not_sorter_order", f"{tag}: coordinates are not in the order of sort_points_to_form_continuous_line")
     else:
